@@ -96,6 +96,7 @@ ALPHABET = [
     C('setup', 'setup'),
     C('configure -Ds=s1', 'configure', [('s', 's1')]),
     C('configure -Ds=s2', 'configure', [('s', 's2')], tiers='t'),
+    C('configure -Ds=', 'configure', [('s', '')]),                 # the empty string is a value like any other
     C('configure -Dc=b', 'configure', [('c', 'b')]),
     C('configure -Dc=c', 'configure', [('c', 'c')]),
     C('configure -Dr=r1', 'configure', [('r', 'r1')]),
@@ -115,6 +116,7 @@ ALPHABET = [
     C('setup --reconfigure', 'reconfigure'),
     C('setup --reconfigure -Dc=c', 'reconfigure', [('c', 'c')]),
     C('setup --reconfigure -Dsub:s=t2', 'reconfigure', [('sub:s', 't2')], tiers='t'),
+    C('setup --reconfigure -Ds=', 'reconfigure', [('s', '')], tiers='t'),
     C('setup --wipe', 'wipe'),
     C('edit add', 'edit', variant='add'),
     C('edit remove', 'edit', variant='remove'),
@@ -395,7 +397,7 @@ def run(argv):
     return RUNNER(argv, WORK)
 
 
-OBS_RE = re.compile(r'Message: OBS (top|sub) (\S+) (.*)$')
+OBS_RE = re.compile(r'Message: OBS (top|sub) (\S+)(?: (.*))?$')      # an empty value may lose its separating blank
 
 
 def parse_messages(out):
@@ -403,7 +405,7 @@ def parse_messages(out):
     for l in out.splitlines():
         mm = OBS_RE.search(l)
         if mm:
-            d['%s.%s' % (mm.group(1), mm.group(2))] = mm.group(3).strip()
+            d['%s.%s' % (mm.group(1), mm.group(2))] = (mm.group(3) or '').strip()
     return d
 
 
@@ -443,7 +445,7 @@ def read_intro():
 def parse_configure(out):
     """project option values and the augments listing of `meson configure <builddir>`"""
     vals, aug = {}, {}
-    scope, in_proj, in_aug = 'top', False, False
+    scope, in_proj, in_aug, cols = 'top', False, False, None
     for l in out.splitlines():
         s = l.strip()
         if s.startswith('Subproject ') and s.endswith(':'):
@@ -453,6 +455,10 @@ def parse_configure(out):
             scope, in_proj = 'top', False
             continue
         f = s.split()
+        if 'Current Value' in l and not in_aug:
+            a = l.index('Current Value')
+            ends = [l.index(h) for h in ('Possible Values', 'Description') if h in l and l.index(h) > a]
+            cols = (a, min(ends) if ends else len(l) + 1000)
         if in_aug:
             if len(f) >= 2:
                 aug[f[0]] = f[1]
@@ -473,7 +479,9 @@ def parse_configure(out):
             in_proj = False
             continue
         if in_proj and len(f) >= 2:
-            vals[('' if scope == 'top' else scope + ':') + f[0]] = f[1]
+            # the value column can be empty (-Ds=): read it by its position under the last "Current Value" heading
+            v = l[cols[0]:cols[1]].strip() if cols else f[1]
+            vals[('' if scope == 'top' else scope + ':') + f[0]] = v
     return vals, aug
 
 
@@ -765,7 +773,7 @@ def main():
         jobs = 1
         ck.assume('mount namespaces unavailable: transitions executed serially at the fixed path')
     depth = ck.q(3, 5)
-    max_expand = ck.q(150, 1400)            # count-based cap on expanded states (deterministic); frontier reported
+    max_expand = ck.q(220, 1600)            # count-based cap on expanded states (deterministic); frontier reported
     tier_letter = 't' if ck.thorough else 'q'
     alphabet = [c['name'] for c in ALPHABET if tier_letter in c['tiers']]
 
